@@ -3,8 +3,10 @@ package filterchk
 import (
 	"fmt"
 	"math/rand"
+	"sort"
 
 	fzf "github.com/junegunn/fzf/src"
+	"github.com/junegunn/fzf/src/util"
 
 	"verif/harness/matchchk"
 	"verif/harness/vk"
@@ -145,6 +147,36 @@ func accessCase(r *vk.Run, rng *rand.Rand) {
 				wit["position"] = i
 				r.Violate(vk.Violation{Summary: fmt.Sprintf("C04: position %d of the merged list holds item %d, one global sort puts item %d there (query %q, %d items, %d partitions, tac=%v)", i, seq[i], ref[i], q, len(items), parts, tac), Witness: wit})
 				return
+			}
+		}
+		// toggle-sort: a matcher with the other sort flag reads the same chunk cache (the cache survives a
+		// toggle); with sorting off the list must be in input order (reversed under --tac), whatever the
+		// sorted scan left in the cache
+		if k%2 == 1 {
+			m2 := fzf.VerifNewMatcher(w.Cache, pb, false, tac, util.NewEventBox(), parts)
+			mgU, _ := fzf.VerifMatcherScan(m2, chunks, pb([]rune(q)))
+			if mgU == nil {
+				r.Inconclusive("scan returned no merger")
+				return
+			}
+			r.Count("toggle_sort_scans", 1)
+			want := append([]int32(nil), ref...)
+			sort.Slice(want, func(a, b int) bool {
+				if tac {
+					return want[a] > want[b]
+				}
+				return want[a] < want[b]
+			})
+			if mgU.Length() != len(want) {
+				r.Violate(vk.Violation{Summary: fmt.Sprintf("C04: with sorting switched off the list has %d entries, the reference finds %d (query %q)", mgU.Length(), len(want), q), Witness: wit})
+				return
+			}
+			for i := range want {
+				if got := fzf.VerifItemIndex(fzf.VerifMergerItem(mgU, i)); got != want[i] {
+					wit["position"] = i
+					r.Violate(vk.Violation{Summary: fmt.Sprintf("C04: with sorting switched off after a sorted search of the same query, position %d holds item %d, input order puts item %d there (query %q, %d items, %d partitions, tac=%v)", i, got, want[i], q, len(items), parts, tac), Witness: wit})
+					return
+				}
 			}
 		}
 	}
